@@ -28,11 +28,15 @@ pub enum Val {
   Set(Vec<i32>),
   Table(Vec<i32>),     // | x<f64> y<f64> | rows…  (pairs)
   ColF(Vec<i32>),      // f64 column vector
+  /// scalar of any of the 14 numeric kinds (index into ALL_KINDS), written `n<kind>`
+  KS(u8, u8),
+  /// row / column vector (shape 0 / 1) or 2x2 matrix (shape 2) of any numeric kind, written with typed elements
+  KV(u8, u8, Vec<u8>),
 }
 
 impl Val {
   fn family(&self) -> &'static str {
-    match self { Val::F(_) => "f64", Val::U8(_) => "u8", Val::Str(_) => "string", Val::Bool(_) => "bool", Val::Row(_) => "row", Val::Col(_) => "col", Val::Mat(_) => "mat", Val::Tuple(..) => "tuple", Val::Record(..) => "record", Val::Set(_) => "set", Val::Table(_) => "table", Val::ColF(_) => "colf" }
+    match self { Val::F(_) => "f64", Val::U8(_) => "u8", Val::Str(_) => "string", Val::Bool(_) => "bool", Val::Row(_) => "row", Val::Col(_) => "col", Val::Mat(_) => "mat", Val::Tuple(..) => "tuple", Val::Record(..) => "record", Val::Set(_) => "set", Val::Table(_) => "table", Val::ColF(_) => "colf", Val::KS(..) => "kinded-scalar", Val::KV(..) => "kinded-matrix" }
   }
   fn text(&self) -> String {
     match self {
@@ -48,13 +52,32 @@ impl Val {
       Val::Set(v) => format!("{{{}}}", v.iter().map(|x| format!("{}.0", x)).collect::<Vec<_>>().join(", ")),
       Val::Table(v) => format!("| x<f64> y<f64> | {} |", v.chunks(2).map(|p| format!("{} {}", p[0], p[1])).collect::<Vec<_>>().join(" | ")),
       Val::ColF(v) => format!("[{}]", v.iter().map(|x| format!("{}.0", x)).collect::<Vec<_>>().join("; ")),
+      Val::KS(k, n) => ksc(*k, *n),
+      Val::KV(k, shape, v) => { let e: Vec<String> = v.iter().map(|n| ksc(*k, *n)).collect(); match shape % 3 { 0 => format!("[{}]", e.join(" ")), 1 => format!("[{}]", e.join("; ")), _ => format!("[{} {}; {} {}]", e[0], e[1 % e.len()], e[2 % e.len()], e[3 % e.len()]) } }
     }
+  }
+  /// the kind annotation that fits this value, if it is one of the kinded families
+  fn annotation(&self) -> Option<String> {
+    match self { Val::KS(k, _) => Some(ALL_KINDS[*k as usize % 14].name().to_string()), Val::KV(k, _, _) => Some(format!("[{}]", ALL_KINDS[*k as usize % 14].name())), Val::F(_) => Some("f64".into()), Val::U8(_) => Some("u8".into()), _ => None }
+  }
+}
+
+/// small scalar `n` of kind #k as a typed literal expression
+fn ksc(k: u8, n: u8) -> String {
+  let kind = ALL_KINDS[k as usize % 14];
+  let n = (n % 9 + 1) as i128;
+  match kind {
+    K::F64 => format!("{}.5", n), K::F32 => format!("{}.5<f32>", n), K::R64 => format!("{}/7", n), K::C64 => format!("{}.0+{}.0i", n, n + 1),
+    k if k.is_signed() => format!("{}<{}>", n, k.name()),
+    k => format!("{}<{}>", n, k.name()),
   }
 }
 
 #[derive(Clone, Debug, PartialEq, Serialize, Deserialize)]
 pub enum St {
   Define { name: usize, mutable: bool, val: Val },
+  /// `x<kind> := value` (the annotation matches the value's own kind)
+  DefineAnnotated { name: usize, mutable: bool, val: Val },
   DefineFrom { name: usize, mutable: bool, src: usize },
   DefineExpr { name: usize, mutable: bool, src: usize },
   DefineIndex { name: usize, src: usize, ix: u8 },
@@ -87,6 +110,8 @@ fn val_strategy() -> BoxedStrategy<Val> {
     1 => proptest::collection::vec(0i32..9, 1..=3).prop_map(|mut v| { v.sort(); v.dedup(); Val::Set(v) }),
     1 => proptest::collection::vec(0i32..9, 4).prop_map(Val::Table),
     2 => proptest::collection::vec(1i32..9, 2..=3).prop_map(Val::ColF),
+    5 => (0u8..14, 0u8..9).prop_map(|(k, n)| Val::KS(k, n)),
+    5 => (0u8..14, 0u8..3, proptest::collection::vec(0u8..9, 2..=4)).prop_map(|(k, sh, v)| Val::KV(k, sh, v)),
   ].boxed()
 }
 
@@ -94,6 +119,7 @@ fn st_strategy() -> BoxedStrategy<St> {
   let n = || 0usize..NAMES.len();
   prop_oneof![
     6 => (n(), any::<bool>(), val_strategy()).prop_map(|(name, mutable, val)| St::Define { name, mutable, val }),
+    2 => (n(), any::<bool>(), val_strategy()).prop_map(|(name, mutable, val)| St::DefineAnnotated { name, mutable, val }),
     4 => (n(), any::<bool>(), n()).prop_map(|(name, mutable, src)| St::DefineFrom { name, mutable, src }),
     2 => (n(), any::<bool>(), n()).prop_map(|(name, mutable, src)| St::DefineExpr { name, mutable, src }),
     2 => (n(), n(), 0u8..6).prop_map(|(name, src, ix)| St::DefineIndex { name, src, ix }),
@@ -130,7 +156,7 @@ impl Prop for C05 {
           _ => st.clone(),
         };
         match &st2 {
-          St::Define { name, .. } | St::DefineExpr { name, .. } | St::DefineIndex { name, .. } => { if !groups.contains_key(name) { groups.insert(*name, next); next += 1; } }
+          St::Define { name, .. } | St::DefineAnnotated { name, .. } | St::DefineExpr { name, .. } | St::DefineIndex { name, .. } => { if !groups.contains_key(name) { groups.insert(*name, next); next += 1; } }
           St::DefineFrom { name, src, .. } => { if !groups.contains_key(name) { if let Some(g) = groups.get(src).copied() { groups.insert(*name, g); } } }
           St::AssignFrom { name, src } => { if let (Some(_), Some(g)) = (groups.get(name), groups.get(src).copied()) { groups.insert(*name, g); } }
           St::Destructure { names, from: Some(src), .. } => { if let Some(g) = groups.get(src).copied() { for nm in names { if !groups.contains_key(nm) { groups.insert(*nm, g); } } } }
@@ -143,8 +169,8 @@ impl Prop for C05 {
     }).boxed()
   }
   fn rule() -> &'static str {
-    "case = history of 4-25 statements over names {a..e} executed one per interpret() call in one session: define / mutable define (11 \
-     value families: scalars of two kinds, string, bool, row/column (u8 and f64)/general matrix, tuple, record, set, table), define from another name, \
+    "case = history of 4-25 statements over names {a..e} executed one per interpret() call in one session: define / mutable define (13 \
+     value families: scalars and row/column/2x2 matrices of all 14 numeric kinds (plain and with a kind annotation), f64/u8 scalars, string, bool, row/column (u8 and f64)/general matrix, tuple, record, set, table), define from another name, \
      from an expression, from an index, assign, assign from name, indexed assign, op-assign with a literal and with another name on the right, record-field assign, tuple destructure \
      (right/wrong arity, names already defined), use of an undefined name — valid and invalid mixed. After every statement the full symbol \
      snapshot (values + mutability) is compared with the previous one and with a reference store. Non-trivial = history contains a \
@@ -166,6 +192,7 @@ fn nm(i: usize) -> &'static str { NAMES[i] }
 fn render(s: &St) -> String {
   match s {
     St::Define { name, mutable, val } => format!("{}{} := {}", if *mutable { "~" } else { "" }, nm(*name), val.text()),
+    St::DefineAnnotated { name, mutable, val } => match val.annotation() { Some(a) => format!("{}{}<{}> := {}", if *mutable { "~" } else { "" }, nm(*name), a, val.text()), None => format!("{}{} := {}", if *mutable { "~" } else { "" }, nm(*name), val.text()) },
     St::DefineFrom { name, mutable, src } => format!("{}{} := {}", if *mutable { "~" } else { "" }, nm(*name), nm(*src)),
     St::DefineExpr { name, mutable, src } => format!("{}{} := {} + 1.0", if *mutable { "~" } else { "" }, nm(*name), nm(*src)),
     St::DefineIndex { name, src, ix } => format!("{} := {}[{}]", nm(*name), nm(*src), ix),
@@ -185,7 +212,7 @@ fn render(s: &St) -> String {
 }
 
 fn rule_name(s: &St) -> &'static str {
-  match s { St::Define { mutable: false, .. } => "def", St::Define { .. } => "mdef", St::DefineFrom { .. } => "def-from", St::DefineExpr { .. } => "def-expr", St::DefineIndex { .. } => "def-index", St::Assign { .. } => "assign", St::AssignFrom { .. } => "assign-from", St::IndexAssign { .. } => "index-assign", St::RangeAssign { .. } => "range-assign", St::OpAssign { .. } => "op-assign", St::OpAssignFrom { .. } => "op-assign-from", St::FieldAssign { .. } => "field-assign", St::Destructure { .. } => "destructure", St::UseUndefined { .. } => "undefined-rhs" }
+  match s { St::Define { mutable: false, .. } => "def", St::Define { .. } => "mdef", St::DefineAnnotated { .. } => "def-annotated", St::DefineFrom { .. } => "def-from", St::DefineExpr { .. } => "def-expr", St::DefineIndex { .. } => "def-index", St::Assign { .. } => "assign", St::AssignFrom { .. } => "assign-from", St::IndexAssign { .. } => "index-assign", St::RangeAssign { .. } => "range-assign", St::OpAssign { .. } => "op-assign", St::OpAssignFrom { .. } => "op-assign-from", St::FieldAssign { .. } => "field-assign", St::Destructure { .. } => "destructure", St::UseUndefined { .. } => "undefined-rhs" }
 }
 
 type Store = BTreeMap<String, (bool, RVal)>;
@@ -226,7 +253,7 @@ fn check(c: &Case) -> Verdict {
     let defined = |n: usize| prev.contains_key(nm(n));
     let mutable = |n: usize| prev.get(nm(n)).map(|x| x.0).unwrap_or(false);
     let (targets, demand): (Vec<String>, Demand) = match s {
-      St::Define { name, .. } | St::DefineExpr { name, .. } | St::DefineIndex { name, .. } | St::UseUndefined { name } | St::DefineFrom { name, .. } => {
+      St::Define { name, .. } | St::DefineAnnotated { name, .. } | St::DefineExpr { name, .. } | St::DefineIndex { name, .. } | St::UseUndefined { name } | St::DefineFrom { name, .. } => {
         let src_undefined = match s { St::DefineFrom { src, .. } | St::DefineExpr { src, .. } | St::DefineIndex { src, .. } => !defined(*src), St::UseUndefined { .. } => true, _ => false };
         let d = if defined(*name) { Demand::MustErr("VariableAlreadyDefined") } else if src_undefined { Demand::MustErr("UndefinedVariable") } else { Demand::Open };
         (vec![nm(*name).to_string()], d)
@@ -244,7 +271,8 @@ fn check(c: &Case) -> Verdict {
     if let Outcome::NotCode | Outcome::ParseErr(_) = out { v.harness(format!("`{}` did not parse as code: {}", text, out.show())); return v; }
     if let Outcome::Panic(m) = &out { v.fail(format!("C05|panic-escaped|{}", rule), format!("`{}`: {}", text, m)); return v; }
     let now = observe(&sess);
-    let family = match s { St::Define { val, .. } | St::Assign { val, .. } => val.family(), _ => "-" };
+    let family = match s { St::Define { val, .. } | St::DefineAnnotated { val, .. } | St::Assign { val, .. } => val.family(), _ => "-" };
+    if let St::Define { val: Val::KS(k, _), .. } | St::Define { val: Val::KV(k, _, _), .. } | St::DefineAnnotated { val: Val::KS(k, _), .. } | St::DefineAnnotated { val: Val::KV(k, _, _), .. } | St::Assign { val: Val::KS(k, _), .. } | St::Assign { val: Val::KV(k, _, _), .. } = s { v.label(format!("kind:{}:{}", ALL_KINDS[*k as usize % 14].name(), if out.is_ok() { "ok" } else { "err" })); }
     v.label(format!("rule:{}:{}", rule, if out.is_ok() { "ok" } else { "err" }));
     if keyparts.len() < 8 { keyparts.push(format!("{}:{}:{}", rule, family, out.class())); }
     let nev = v.evals as usize;
@@ -288,7 +316,7 @@ fn check(c: &Case) -> Verdict {
         for k in now.keys() { if !prev.contains_key(k) && !targets.contains(k) { v.fail(format!("C05|unexpected-binding|{}", rule), format!("`{}` defined `{}` — history: {}", text, k, history())); return v; } }
         // model-computable values
         match s {
-          St::Define { name, mutable, .. } | St::DefineFrom { name, mutable, .. } => {
+          St::Define { name, mutable, .. } | St::DefineAnnotated { name, mutable, .. } | St::DefineFrom { name, mutable, .. } => {
             let got = now.get(nm(*name));
             match (s, got) {
               (_, None) => { v.fail(format!("C05|define-did-not-bind|{}", rule), format!("`{}` succeeded but `{}` is undefined", text, nm(*name))); return v; }
